@@ -10,6 +10,14 @@ func runC02(rc *sim.RunCtx) {
 		return
 	}
 	defer h.W.Close()
+	if rc.T.Bool(1, 3) {
+		// C02 does not depend on precedence: in a third of the runs owners may share a priority
+		// (then only the store oracle runs, precedence between equal priorities is undefined)
+		h.Cfg.EqualPrio = true
+		h.Ops.Oracles = map[string]bool{"C02": true}
+		rc.Buggify("equal-priorities")
+		rc.Scenario("owners may share priorities")
+	}
 	// favour edits of existing (possibly shadowed) intents
 	for _, k := range []string{"change", "shrink", "reprio", "delete"} {
 		if h.Cfg.W[k] == 0 {
